@@ -119,9 +119,64 @@ const CFGS: &[Cfg] = &[
     // a failing parse (Error)
     Cfg { id: "seq", rule: "r", input: "xz",
           grammar: "r = { a ~ b ~ c }\na = { \"x\" }\nb = { \"y\" | d }\nc = { \"z\" }\nd = { \"q\" }" },
+    // built-in rules visited by the parse (SOI, ASCII_DIGIT, ANY, NEWLINE, EOI): breakpoints on them must be honoured
+    Cfg { id: "builtin", rule: "line", input: "7 x\n",
+          grammar: "line = { SOI ~ word ~ (\" \" ~ word)* ~ NEWLINE? ~ EOI }\nword = { ASCII_DIGIT+ | other }\nother = { ANY }" },
 ];
 
-struct Loaded { names: Vec<String>, entries: Vec<(usize, usize)>, abort_panics: Vec<bool>, plain: Result<(), String> }
+// ------------------------------------------------------------------------------------------
+// the rule visits of a parse, derived from the grammar (optimized AST) by a listener-free walk:
+// this, not the VM's listener, defines what the debugger has to report
+// ------------------------------------------------------------------------------------------
+use pest_meta::optimizer::{OptimizedExpr, OptimizedRule};
+struct Walk<'a> { rules: &'a [OptimizedRule], input: &'a str, visits: Vec<(String, usize)> }
+impl<'a> Walk<'a> {
+    fn rule(&mut self, name: &str, pos: usize) -> Option<usize> {
+        self.visits.push((name.to_owned(), pos));
+        let rest = &self.input[pos..];
+        match name {
+            "ANY" => rest.chars().next().map(|c| pos + c.len_utf8()),
+            "EOI" => if rest.is_empty() { Some(pos) } else { None },
+            "SOI" => if pos == 0 { Some(pos) } else { None },
+            "ASCII_DIGIT" => rest.chars().next().filter(|c| c.is_ascii_digit()).map(|_| pos + 1),
+            "NEWLINE" => if rest.starts_with("\r\n") { Some(pos + 2) } else if rest.starts_with('\n') || rest.starts_with('\r') { Some(pos + 1) } else { None },
+            _ => {
+                let r = self.rules.iter().find(|r| r.name == name).unwrap_or_else(|| panic!("walk: unsupported rule {}", name));
+                let e = r.expr.clone();
+                self.expr(&e, pos)
+            }
+        }
+    }
+    fn expr(&mut self, e: &OptimizedExpr, pos: usize) -> Option<usize> {
+        let rest = &self.input[pos..];
+        match e {
+            OptimizedExpr::Str(s) => if rest.starts_with(s.as_str()) { Some(pos + s.len()) } else { None },
+            OptimizedExpr::Range(a, b) => {
+                let (a, b) = (a.chars().next().unwrap(), b.chars().next().unwrap());
+                rest.chars().next().filter(|c| *c >= a && *c <= b).map(|c| pos + c.len_utf8())
+            }
+            OptimizedExpr::Ident(n) => self.rule(n, pos),
+            OptimizedExpr::PosPred(x) => self.expr(x, pos).map(|_| pos),
+            OptimizedExpr::NegPred(x) => if self.expr(x, pos).is_some() { None } else { Some(pos) },
+            // no WHITESPACE / COMMENT rule in these grammars: nothing is skipped between the parts
+            OptimizedExpr::Seq(a, b) => self.expr(a, pos).and_then(|p| self.expr(b, p)),
+            OptimizedExpr::Choice(a, b) => self.expr(a, pos).or_else(|| self.expr(b, pos)),
+            OptimizedExpr::Opt(x) => Some(self.expr(x, pos).unwrap_or(pos)),
+            OptimizedExpr::Rep(x) => { let mut p = pos; while let Some(q) = self.expr(x, p) { if q == p { break; } p = q; } Some(p) }
+            OptimizedExpr::Skip(strs) => {
+                let mut p = pos;
+                loop {
+                    if strs.iter().any(|s| self.input[p..].starts_with(s.as_str())) { return Some(p); }
+                    match self.input[p..].chars().next() { Some(c) => p += c.len_utf8(), None => return None }
+                }
+            }
+            OptimizedExpr::RestoreOnErr(x) => self.expr(x, pos),
+            other => panic!("walk: unsupported expression {:?}", other),
+        }
+    }
+}
+
+struct Loaded { names: Vec<String>, entries: Vec<(usize, usize)>, abort_panics: Vec<bool>, plain: Result<(), String>, listener_agrees: bool }
 
 fn load(cfg: &Cfg) -> Loaded {
     let (_, rules) = pest_meta::parse_and_optimize(cfg.grammar).expect("grammar");
@@ -136,7 +191,14 @@ fn load(cfg: &Cfg) -> Loaded {
     // the plain parse without a listener must give the same outcome
     let plain2 = pest_vm::Vm::new(rules).parse(cfg.rule, cfg.input).map(|_| ()).map_err(|e| e.to_string());
     assert_eq!(plain, plain2);
-    let raw = log.lock().unwrap().clone();
+    let listened = log.lock().unwrap().clone();
+    // the entry list the model and the oracle use comes from the grammar walk, not from the listener
+    let (_, rules2) = pest_meta::parse_and_optimize(cfg.grammar).expect("grammar");
+    let mut w = Walk { rules: &rules2, input: cfg.input, visits: Vec::new() };
+    let matched = w.rule(cfg.rule, 0).is_some();
+    assert_eq!(matched, plain.is_ok(), "grammar walk and pest_vm disagree on the outcome of {}", cfg.id);
+    let raw = w.visits.clone();
+    let listener_agrees = raw == listened;
     for (r, _) in raw.iter() { if !names.contains(r) { names.push(r.clone()); } }
     names.sort();
     let entries = raw.iter().map(|(r, p)| (names.iter().position(|n| n == r).unwrap(), *p)).collect();
@@ -153,7 +215,7 @@ fn load(cfg: &Cfg) -> Loaded {
         }));
         abort_panics.push(pvharness::catch(|| { let _ = vm.parse(cfg.rule, cfg.input); }).is_err());
     }
-    Loaded { names, entries, abort_panics, plain }
+    Loaded { names, entries, abort_panics, plain, listener_agrees }
 }
 
 fn show_event(ev: &DebuggerEvent, ld: &Loaded) -> String {
@@ -380,6 +442,7 @@ fn main() {
             for (c, ld) in CFGS.iter().zip(loaded.iter()) {
                 let es: Vec<String> = ld.entries.iter().zip(ld.abort_panics.iter()).map(|((r, p), b)| format!("{}:{}:{}", r, p, *b as u8)).collect();
                 writeln!(out, "CFG\t{}\t{}\t{}\t{}", c.id, es.join(","), if ld.plain.is_ok() { "E" } else { "X" }, ld.names.join(",")).unwrap();
+                if !ld.listener_agrees { writeln!(out, "#ENTRYDIFF\t{}", c.id).unwrap(); }
             }
         }
         "force" => {
